@@ -630,6 +630,26 @@ where
                     go(rec, st, token_string::<B, P>(&p[p.len() - n..], f), &km.unseal, &aad, true, json!({"cls":"truncate-front","to":n}));
                 }
             }
+            // Ed25519 (RFC 8032 5.1.7): the scalar S of a signature must be below the group order L; S + k*L describes the same
+            // group element and a verifier that reduces it would accept a second spelling of the signature
+            if purpose == "public" && (B::VER == 2 || B::VER == 4) && p.len() >= 64 {
+                const L: [u8; 32] = [0xed, 0xd3, 0xf5, 0x5c, 0x1a, 0x63, 0x12, 0x58, 0xd6, 0x9c, 0xf7, 0xa2, 0xde, 0xf9, 0xde, 0x14,
+                                     0, 0, 0, 0, 0, 0, 0, 0, 0, 0, 0, 0, 0, 0, 0, 0x10];
+                let mut q = p.clone();
+                let at = q.len() - 32;
+                for k in 1..=14u32 {
+                    let mut carry = 0u16;
+                    for i in 0..32 {
+                        let v = q[at + i] as u16 + L[i] as u16 + carry;
+                        q[at + i] = v as u8;
+                        carry = v >> 8;
+                    }
+                    if carry != 0 {
+                        break;
+                    }
+                    go(rec, st, token_string::<B, P>(&q, f), &km.unseal, &aad, true, json!({"cls":"signature-scalar-plus-group-order","k":k}));
+                }
+            }
             // text-level extensions: further '.'-separated sections after the token
             for tail in [".", "..", ".AAAA", "..AAAA", ".x", ". ", ".\u{0}"] {
                 let text = format!("{}{}", s.text, tail);
